@@ -4,7 +4,7 @@
 From Coq Require Import List NArith Bool Arith Sorted.
 From Coq Require Import Strings.Byte.
 Require Import BS.Bytes BS.Common BS.Api BS.Layout BS.Format BS.FormatFacts BS.Spec BS.SpecStep.
-Require Import BS.FS BS.FSFacts BS.Meta BS.MetaFacts BS.Header BS.Reader BS.ReaderFacts BS.Index BS.Data BS.DataFacts BS.Seek BS.Series BS.SeriesFacts.
+Require Import BS.FS BS.FSFacts BS.Meta BS.MetaFacts BS.Header BS.Reader BS.ReaderFacts BS.Index BS.Data BS.DataFacts BS.Seek BS.Series BS.SeriesFacts BS.OpenFacts BS.HistoryFacts.
 Import ListNotations.
 
 (* (F) a section is emitted exactly for the first line and when the distance to the last full
@@ -41,4 +41,18 @@ Print Assumptions C15_push_data_writes_reference_bytes.
 Theorem C15_meta_write_is_documented_section : forall p t, meta_write p (le_enc 8 t) = enc_section p t.
 Proof. exact meta_write_is_section. Qed.
 Print Assumptions C15_meta_write_is_documented_section.
-(* partial: independence from interleaved reopens and repairs needs the open theorem (C04/C05). *)
+(* (I refines S) independence from interleaved reopens and repairs: over EVERY history (props/C05.v) the data file is the
+   preamble followed by the reference encoding of the lines Layer S expects - every append, also one that follows a reopen or
+   the recovery from a crash, was encoded against the right full timestamp under the 65534 rule *)
+Theorem C15_every_history : forall p name uhdr,
+  (len (params_to_text BSgen.Consts.version (N.of_nat p) ++ uhdr) <= 65535)%N -> (N.of_nat p < 2^64)%N ->
+  forall fs cb0 ops,
+  fs_mem fs (name ++ ext_data) = false -> fs_mem fs (name ++ ext_index) = false -> hvalid_all p name uhdr [] ops ->
+  exists fs0 s0 st', series_new name (N.of_nat p) uhdr [] cb0 fs = (fs0, Ok s0)
+    /\ hrun name (fs0, s0) ops = Some st'
+    /\ let l := fold_left (hspec p) ops [] in
+       fs_get (fst st') (name ++ ext_data) = Some (outer (params_to_text BSgen.Consts.version (N.of_nat p) ++ uhdr) ++ encode p l)
+       /\ fs_get (fst st') (name ++ ext_index) = Some (outer [] ++ enc_index (sections p (encode p l))).
+Proof. exact history_files. Qed.
+Print Assumptions C15_every_history.
+
